@@ -12,7 +12,8 @@ META = {
             "or an error of the same class, and never a panic. Its parts: resolution_stage_eq (the VM's resolution stage fails exactly when Spec.prepare / "
             "checkBalanceVars do, same class, and otherwise resolves every resource to its value under Spec's environment and builds exactly Spec's initial "
             "balances: NeededBalances resolved = Spec.needed), frame lemmas per construct (expr_ok, source_ok, takeFromSource_ok, dest_ok/kd_ok/caps_ok/"
-            "allot_ok, allotment_ok, allotSources_ok, stmt_okQ/stmt_ok2), compile_correct_frag and compile_correct_partial (earlier, weaker statements, kept). "
+            "allot_ok, allotment_ok, allotSources_ok, stmt_okQ/stmt_ok2), compile_correct_text / front_wellFormed (the same from the TEXT: what lex+parse accept is well "
+            "formed), compile_correct_frag and compile_correct_partial (earlier, weaker statements, kept). "
             "Also: compile_rejects (compile refuses exactly when the static rules `check` do, the two size limits being outcomes of their own), "
             "compile_accepts_checked, compile_static_rejects, compile_rejects_unchecked, compile_deterministic, opcode_table_matches / type_table_matches "
             "(decide, against tables regenerated from the Go sources on every run), rejected_not_run, cache_transparent(_seq) for every cache size and "
@@ -20,7 +21,8 @@ META = {
             "generated program, same compile_error verdict), VM model vs real VM, end-to-end Spec vs compiler+VM.",
     "note": "compile_correct has three side conditions (Script.wellFormed), none a restriction of the language: at least one statement (the grammar requires "
             "it), in-order source lists and allotments shorter than 2^64 (their length is an operand read through big.Int.Uint64), no portion literal with a "
-            "zero denominator (big.Rat has none; the parser produces none) — that the FRONT-END model only produces such scripts is not proved. The theorem is "
+            "zero denominator (big.Rat has none; the parser produces none) — front_wellFormed proves that the front-end model only produces such scripts from "
+            "texts shorter than 2^64 characters, so compile_correct_text (text in, observations out) has no hypothesis on the syntax tree. The theorems are "
             "about the compiler and VM MODELS; that the models are the Go compiler and VM rests on the bytecode-equality and VM differentials. PARTIAL for the "
             "concurrency clause (shared *Program under concurrent use: covered by the differential only); the digest injectivity is a hypothesis of "
             "cache_transparent. Trusted: Lean kernel; Spec; harness pretty-printer instead of the ANTLR parser.",
